@@ -2,7 +2,7 @@
    pinned there (hypothesis [2 <= B] after the universally quantified data). *)
 From Coq Require Import List Arith Bool.
 Import ListNotations.
-From NV Require Import Vector.Model Vector.History Vector.Wf Vector.HistoryAbs Vector.VecProofs Vector.ExtendProofs
+From NV Require Import Vector.Model Vector.History Vector.Wf Vector.HistoryAbs Vector.VecProofs Vector.ExtendProofs Vector.IterMutProofs
   Vector.SliceProofs Vector.HistoryProofs Vector.BitOps Vector.RcHeap Vector.RcHeapProofs.
 
 (* ---- the property: histories over families of handles refine independent lists *)
@@ -20,7 +20,7 @@ Proof. intros B st ops HB W. exact (run_refines B HB ops st W). Qed.
 
 Lemma frame_vec_stmt : forall B st o j, 2 <= B -> all_wf B st ->
   match o with
-  | VPush k _ | VPop k | VSet k _ _ | VTrunc k _ | VExtend k _ | VDrop k => j <> k
+  | VPush k _ | VPop k | VSet k _ _ | VTrunc k _ | VExtend k _ | VMapFrom k _ _ | VDrop k => j <> k
   | _ => True
   end ->
   j < length (ivs st) ->
@@ -30,7 +30,7 @@ Proof. intros B st o j HB. exact (frame_vec B HB st o j). Qed.
 
 Lemma frame_slice_stmt : forall B st o j, 2 <= B -> all_wf B st ->
   match o with
-  | SPush k _ | SPop k | SSet k _ _ | SSlice k _ _ | SExtend k _ | SExtendFrom k _ | SDrop k => j <> k
+  | SPush k _ | SPop k | SSet k _ _ | SSlice k _ _ | SExtend k _ | SExtendFrom k _ | SMap k _ | SDrop k => j <> k
   | _ => True
   end ->
   j < length (iss st) ->
@@ -135,6 +135,21 @@ Proof. exact bit_ops_agree. Qed.
 
 Lemma leaf_mask_agrees_stmt : forall k idx, Nat.land idx (2 ^ k - 1) = idx mod 2 ^ k.
 Proof. exact leaf_mask_agrees. Qed.
+
+(* ---- mutable iteration: [iter_mut_starting_at(idx)] with a consumer that takes [bd] elements and
+   replaces each by [f] of it; [Slice::iter_mut] *)
+Lemma iter_mut_from_stmt : forall A B (f : A -> A) (v : @vec A) idx bd, 2 <= B -> wf B v ->
+  (idx <= vlen v ->
+   exists v', vmap_from B v idx f bd = Some v' /\ wf B v'
+              /\ to_list v' = firstn idx (to_list v)
+                              ++ (map f (firstn bd (skipn idx (to_list v))) ++ skipn bd (skipn idx (to_list v)))
+              /\ vlen v' = vlen v)
+  /\ (vlen v < idx -> vmap_from B v idx f bd = None).
+Proof. intros A B f v idx bd HB. exact (vmap_from_spec B HB f v idx bd). Qed.
+
+Lemma slice_iter_mut_stmt : forall A B (s : @slice A) (f : A -> A), 2 <= B -> swf B s ->
+  exists s', smap B s f = Some s' /\ swf B s' /\ sl_list s' = map f (sl_list s).
+Proof. intros A B s f HB. exact (smap_spec B HB s f). Qed.
 
 (* ---- T1: the same operations over an explicit heap of reference-counted nodes (Vector/RcHeap.v).
    [hinv] = counts are exact w.r.t. the live handles; an operation through the handle in the middle
